@@ -62,7 +62,9 @@ Definition run_agree (evs : list ev) (ok : bool) (job : option tokens) (r : trun
   (match after_append evs with
    | None => negb (tr_middone r)
    | Some late => tr_middone r
-                  && (if ok then list_eqb N.eqb (sortN (concat (ev_ents late))) (tr_late r)
+                  (* the order of the sink calls inside one dependency is not modelled: WHICH ids came after the
+                     write is compared for (explicit) full syncs, whose pages are in feed order; else their number *)
+                  && (if ok && tr_full r then list_eqb N.eqb (sortN (concat (ev_ents late))) (tr_late r)
                       else Nat.eqb (length (concat (ev_ents late))) (length (tr_late r)))
    end)
   && Bool.eqb ok (tr_ok r)
@@ -77,7 +79,8 @@ Definition op_of (c : tcase) (o : top) : op :=
   | TW k vs => OAppend k vs
   | TRun r => match tr_mid r with
               | None => ORun (tr_full r) (tc_batch c) (tr_fail r) (tr_core r)
-              | Some (k, ds, vs) => ORunMid (tc_batch c) (tr_fail r) (tr_core r) k ds vs
+              | Some (k, ds, vs) => if tr_full r then ORunMid (tc_batch c) (tr_fail r) (tr_core r) k ds vs
+                                    else ORunMidInc (tc_batch c) (tr_fail r) (tr_core r) k ds vs
               end
   end.
 
@@ -128,6 +131,28 @@ Definition dep_covered (c : cfg) (h : hub) (before after : list (nat * Z)) (emit
              && subsetN (prev_targets c h dp b0 (v_id x)) emitted)
           (range_tails (feed_of h k) 0 b0 (tok_get after k)).
 
+(** an incremental run during which a write landed (hub [h0] before it, [h1] after it): every change the tokens
+    moved past was handled either as the graph stood before the write or as it stood after it; a change that the
+    write itself appended can only have been handled after it *)
+Fixpoint range_pos (l : feed) (pos from to : Z) : list (Z * ver) :=
+  match l with
+  | [] => []
+  | x :: l' => (if Z.leb from pos && Z.ltb pos to then [(pos, x)] else []) ++ range_pos l' (pos + 1) from to
+  end.
+Definition cov1 (c : cfg) (h : hub) (dp : dep) (b0 : Z) (emitted : list N) (p : Z) (x : ver) : bool :=
+  match nthz (feed_of h (d_ds dp)) p with
+  | Some _ =>
+    (if c_latest c && superseded x (dropz (p + 1) (feed_of h (d_ds dp))) then true
+     else subsetN (now_targets c h dp (v_id x)) emitted)
+    && subsetN (prev_targets c h dp b0 (v_id x)) emitted
+  | None => false
+  end.
+Definition dep_covered2 (c : cfg) (h0 h1 : hub) (before after : list (nat * Z)) (emitted : list N) (dp : dep) : bool :=
+  let k := d_ds dp in
+  let b0 := tok_get before k in
+  forallb (fun px : Z * ver => cov1 c h1 dp b0 emitted (fst px) (snd px) || cov1 c h0 dp b0 emitted (fst px) (snd px))
+          (range_pos (feed_of h1 k) 0 b0 (tok_get after k)).
+
 Definition main_covered (c : cfg) (h : hub) (before after : Z) (emitted : list N) : bool :=
   forallb (fun xt : ver * feed =>
              let '(x, later) := xt in
@@ -169,8 +194,21 @@ Definition run_spec_ok (c : cfg) (h0 : hub) (before : option tokens) (r : trun) 
       && match (if tr_full r then None else before) with
          | Some tk =>
            (* ... and everything it moved past was delivered in this run (also when the run failed) *)
-           forallb (dep_covered c h (t_deps tk) (tr_deps r) (tr_emitted r)) (c_deps c)
+           forallb (fun dp => match tr_mid r with
+                              | None => dep_covered c h (t_deps tk) (tr_deps r) (tr_emitted r) dp
+                              | Some _ => dep_covered2 c h0 h (t_deps tk) (tr_deps r) (tr_emitted r) dp
+                              end) (c_deps c)
            && main_covered c h (t_main tk) (tr_main r) (tr_emitted r)
+           (* "its tokens no longer advance" means caught up: a run that ended OK and left a dependency token where it
+              was had nothing left to read in that dataset (every tracked dataset has a token, implicit ones too) *)
+           && (if tr_ok r
+               then match tr_mid r with
+                    | None => forallb (fun dp => negb (Z.eqb (tok_get (tr_deps r) (d_ds dp)) (tok_get (t_deps tk) (d_ds dp)))
+                                                 || Z.eqb (tok_get (tr_deps r) (d_ds dp)) (lenz (feed_of h (d_ds dp))))
+                                      (c_deps c)
+                    | Some _ => true
+                    end
+               else true)
          | None =>
            (* full sync: once its token is stored, every live main entity was delivered *)
            if tr_ok r
@@ -255,7 +293,7 @@ Definition ok_run (r : trun) (evs : list ev) : trun :=
        (if tr_ok r then tr_emitted r else sortN (concat (ev_ents evs)))
        (tr_calls r) 0 (tr_main r) (tr_deps r) (tr_middone r)
        (match after_append evs with
-        | Some l => if tr_ok r then tr_late r else sortN (concat (ev_ents l))
+        | Some l => if tr_ok r && tr_full r then tr_late r else sortN (concat (ev_ents l))
         | None => []
         end).
 Fixpoint ok_ops (v : variant) (c : tcase) (s : state) (ops : list top) : list top :=
